@@ -1,7 +1,7 @@
 ---------------------------- MODULE MC_RtrSession ----------------------------
 EXTENDS RtrSession, Json
 \* one replay line per completed behaviour prefix: emitted when a step has just been applied or failed
-Emit == (log[Len(log)].a \in {"fail", "lost"} \/ (log[Len(log)].a = "step" /\ steps = MaxSteps)) =>
+Emit == (log[Len(log)].a \in {"fail", "lost", "cross"} \/ (log[Len(log)].a = "step" /\ steps = MaxSteps)) =>
           PrintT(<<"REPLAY", ToJson([op |-> "session", cliInit |-> CliInit, srvMax |-> SrvMax, window |-> Window,
                      cliStart |-> CliStart, log |-> log])>>)
 =============================================================================
